@@ -39,3 +39,90 @@ Example C05_strict_refuses_overlong :
   leaf_enc "2.5" STRICT default_ec (Some (unbs "IS")) "ABCDEFGHIJKLMNOPQRSTUVWXYZ" = Err (HL7 EMaxLengthReached) /\
   leaf_enc "2.5" TOLERANT default_ec (Some (unbs "IS")) "ABCDEFGHIJKLMNOPQRSTUVWXYZ" = Ok (unbs "ABCDEFGHIJKLMNOPQRSTUVWXYZ").
 Proof. vm_compute. auto. Qed.
+
+(* ============================================================================================ *)
+(* PARSE-LEVEL SIMULATION (supersedes the remark in the header: the constructors' STRICT branches
+   are now covered).  Whatever parse_component / parse_field / parse_segment accept under STRICT
+   they accept under TOLERANT and the tree is THE SAME (trees carry no level) - for every text,
+   every table in which 'ST' is a base datatype and '' is not, every delimiter set, every
+   reference, and every pair of leaf functions such that STRICT's successes are TOLERANT's.
+   Proofs/StrictSim.v goes through every `is_strict` / `negb is_strict` branch of Model/Tree.v and
+   Model/Parser.v: STRICT-only branches only raise; the TOLERANT-only reconstruction of a
+   component's reference needs a complex datatype ARGUMENT, which the parser never passes (side
+   condition dt_simple; without it the statement is false, C05_component_ctor_subset_refuted); the
+   TOLERANT-only datatype reset of a base-typed element with several children is never reached
+   on a STRICT-accepted input because STRICT refuses the second child. *)
+From HL7 Require Import Model.Encode Gen.Tables Proofs.StrictSim Proofs.StrictSimTables.
+From HL7 Require Gen.Tables_v2_5.
+
+Theorem C05_parse_component_subset : forall t e leafS leafT,
+  (forall dt x y, leafS dt x = Ok y -> leafT dt x = Ok y) ->
+  base t (Some (unbs "ST")) = true -> base t (Some []) = false ->
+  forall text name datatype reference c,
+  datatype = None \/ base t datatype = true ->          (* what parse_components passes *)
+  parse_component t STRICT e leafS text name datatype reference = Ok c ->
+  parse_component t TOLERANT e leafT text name datatype reference = Ok c.
+Proof. intros t e lS lT Hl Hst Hnb text name dt r c. exact (parse_component_subset t e lS lT Hl Hst Hnb text name dt r c). Qed.
+Print Assumptions C05_parse_component_subset.
+
+Theorem C05_parse_field_subset : forall t e leafS leafT,
+  (forall dt x y, leafS dt x = Ok y -> leafT dt x = Ok y) ->
+  base t (Some (unbs "ST")) = true -> base t (Some []) = false ->
+  forall text name reference force_varies f,
+  name <> Some [] ->                                     (* parse_fields passes NAME_i *)
+  parse_field t STRICT e leafS text name reference force_varies = Ok f ->
+  parse_field t TOLERANT e leafT text name reference force_varies = Ok f.
+Proof. intros t e lS lT Hl Hst Hnb text name r fv f. exact (parse_field_subset t e lS lT Hl Hst Hnb text name r fv f). Qed.
+Print Assumptions C05_parse_field_subset.
+
+Theorem C05_parse_segment_subset : forall t e leafS leafT,
+  (forall dt x y, leafS dt x = Ok y -> leafT dt x = Ok y) ->
+  base t (Some (unbs "ST")) = true -> base t (Some []) = false ->
+  forall (text : str) reference s,
+  parse_segment t STRICT e leafS text reference = Ok s ->
+  parse_segment t TOLERANT e leafT text reference = Ok s.
+Proof. intros t e lS lT Hl Hst Hnb text r s. exact (parse_segment_subset t e lS lT Hl Hst Hnb text r s). Qed.
+Print Assumptions C05_parse_segment_subset.
+
+(* every shipped version, the real leaf layer (Model/Leaf.v), any reference (standard or profile) *)
+Theorem C05_parse_segment_subset_shipped : forall v t e (text : str) reference s, tables_of v = Some t ->
+  parse_segment t STRICT e (leaf_enc v STRICT e) text reference = Ok s ->
+  parse_segment t TOLERANT e (leaf_enc v TOLERANT e) text reference = Ok s.
+Proof. exact shipped_parse_segment_subset. Qed.
+Print Assumptions C05_parse_segment_subset_shipped.
+
+(* corollary: the two levels give the same ER7 for a line STRICT accepts *)
+Theorem C05_parse_segment_same_er7 : forall v t e (text : str) reference s, tables_of v = Some t ->
+  parse_segment t STRICT e (leaf_enc v STRICT e) text reference = Ok s ->
+  exists s', parse_segment t TOLERANT e (leaf_enc v TOLERANT e) text reference = Ok s' /\
+             forall e' trailing, enc_segment t e' s' trailing = enc_segment t e' s trailing.
+Proof.
+  intros v t e text r s Ht H. exists s. split; [exact (shipped_parse_segment_subset v t e text r s Ht H)|reflexivity].
+Qed.
+Print Assumptions C05_parse_segment_same_er7.
+
+(* the side condition on the constructor cannot be dropped: Component('VARIES_1', datatype='CE')
+   is built under STRICT and refused (ChildNotFound) under TOLERANT - in the model and in hl7apy *)
+Theorem C05_component_ctor_subset_refuted :
+  ~ (forall t name datatype reference c,
+       mk_component t STRICT name datatype reference = Ok c ->
+       mk_component t TOLERANT name datatype reference = Ok c).
+Proof.
+  intros H. destruct component_ctor_witness as [[c Hc] Ht].
+  rewrite (H _ _ _ _ _ Hc) in Ht. discriminate.
+Qed.
+Print Assumptions C05_component_ctor_subset_refuted.
+
+(* the hypotheses are satisfiable; the inclusion is proper at the parse level too *)
+Example C05_parse_examples :
+  tables_of "2.5" = Some Gen.Tables_v2_5.tables /\
+  base Gen.Tables_v2_5.tables (Some (unbs "ST")) = true /\ base Gen.Tables_v2_5.tables (Some []) = false /\
+  (let P lvl (s : str) := parse_segment Gen.Tables_v2_5.tables lvl default_ec (leaf_enc "2.5" lvl default_ec) s None in
+   outcome_code (P STRICT "PID|1^2") = 6 /\ outcome_code (P TOLERANT "PID|1^2") = 0 /\
+   outcome_code (P STRICT "PID|1||a^^^b&c") = 0 /\
+   match P STRICT "PID|1||a^^^b&c", P TOLERANT "PID|1||a^^^b&c" with
+   | Ok a, Ok b => enc_segment Gen.Tables_v2_5.tables default_ec a false = Ok (unbs "PID|1||a^^^b&c") /\
+                   enc_segment Gen.Tables_v2_5.tables default_ec b true = enc_segment Gen.Tables_v2_5.tables default_ec a true
+   | _, _ => False
+   end).
+Proof. vm_compute. repeat split; reflexivity. Qed.
